@@ -40,6 +40,9 @@ CHECKS = {
     "C20": ("exploration", E1 + " (all small simulable circuits x labels; totality and structural oracles on the exports)",
             "Every canonical skeleton <= 3 leaves over a 9-entry palette, object-only shapes, 4 (5) leaves over reduced palettes, and 17 labels at every position of four small circuits: to_sympy, to_sympy(substitute), to_latex, to_circuitikz (3 option sets), to_drawing and to_stack must return; variable counts, balanced begin/end, one drawn component per connection element named as the circuit names it, finite coordinates. Exhaustive per bound.",
             "Only circuits that simulate are judged; layout quality of diagrams is outside the property.", "DESIGN.md section 4, C20"),
+    "C06": ("exploration", E1 + " (cross product of documented file conventions; the emitter is the oracle)",
+            "Delimited tables over every header alias triple x letter case x separator/decimal mark with negation markers, unit suffixes, column orders, row orders, 1-3 sweeps and 1-7 points (rotating in quick, crossed in thorough), the full product of the structural switches with fixed aliases, the CSV table printed by the CLI fed back, and emitters for .mpt/.i2b/.P00/.dfr/.z/.dta (incl. drift-corrected) are written to a scratch directory, parsed with parse_data and compared with the emitted spectrum (sign of Im, one data set per sweep, sweep labels).",
+            "Combinations outside the documented detection contract are not generated (decimal comma with comma separator; headers containing the separator; spaces in headers of semicolon files); extension-less parsing is not checked (parser order depends on set iteration).", "DESIGN.md section 4, C06"),
 }
 
 NOT_YET = "check not built yet in this round (planned, see DESIGN.md section 4)"
